@@ -11,6 +11,7 @@
      long cffi_verif_mmap_fail_at           fail the call whose ordinal equals this (-1 never)
      long cffi_verif_mmap_fail_n            ... and the next n-1 calls
      dl log: cffi_verif_dl_n, cffi_verif_dl_log[]   (kind, handle, symbol) per dlsym/dlclose/dlopen
+     fault: cffi_verif_dlclose_fail = n   the next n dlclose() calls close the handle but return -1
      void cffi_verif_arm_gate(sem_t *arrived, sem_t *gate)   one-shot gate before this thread's next GIL acquisition
 */
 #ifndef CFFI_VERIF_BACKEND_SHIM_H
@@ -105,10 +106,21 @@ static void *verif_dlsym(void *h, const char *s)
     verif_dl_record(2, h, s);
     return dlsym(h, s);
 }
+/* fault: the next cffi_verif_dlclose_fail calls of dlclose() do close the handle but report a failure
+   (as the dynamic loader does when part of the teardown went wrong) */
+long cffi_verif_dlclose_fail = 0;
+static int verif_dlclose_failed_msg = 0;
 static int verif_dlclose(void *h)
 {
+    int r;
     verif_dl_record(3, h, NULL);
-    return dlclose(h);
+    r = dlclose(h);
+    if (cffi_verif_dlclose_fail > 0) {
+        cffi_verif_dlclose_fail--;
+        verif_dlclose_failed_msg = 1;
+        return -1;
+    }
+    return r;
 }
 
 /* ---- gate at the acquisition of the GIL (used by callbacks entered from foreign threads) ----
@@ -141,6 +153,15 @@ static PyGILState_STATE verif_PyGILState_Ensure(void) { verif_gate(); return PyG
 #define mmap    verif_mmap
 #define dlopen  verif_dlopen
 #define dlsym   verif_dlsym
+static char *verif_dlerror(void)
+{
+    if (verif_dlclose_failed_msg) {
+        verif_dlclose_failed_msg = 0;
+        return "injected failure: cannot finish unloading";
+    }
+    return dlerror();
+}
 #define dlclose verif_dlclose
+#define dlerror verif_dlerror
 
 #endif
